@@ -59,6 +59,8 @@ fn generators(cfg: &Cfg) -> Vec<Generator> {
 static CLOCK: AtomicU64 = AtomicU64::new(0);
 static PAUSE_SEED: AtomicU64 = AtomicU64::new(0);
 static PAUSE_ON: AtomicBool = AtomicBool::new(false);
+/// true while owner, analysing and allocating threads run concurrently (the only phase the progress watchdog judges)
+static CONCURRENT_PHASE: AtomicBool = AtomicBool::new(false);
 static PAUSE_CALLS: AtomicU64 = AtomicU64::new(0);
 static EVENTS: Mutex<Vec<(u64, u8, &'static str, u32)>> = Mutex::new(Vec::new());
 
@@ -242,6 +244,7 @@ fn storm(seed: u64, index: u64, rounds: u32) -> StormReport {
     PAUSE_SEED.store(seed ^ index.wrapping_mul(0x9e37), Ordering::Relaxed);
     PAUSE_CALLS.store(0, Ordering::Relaxed);
     PAUSE_ON.store(true, Ordering::Relaxed);
+    CONCURRENT_PHASE.store(true, Ordering::SeqCst);
     let dir = virtual_dir();
     let mut session = CompilerSession::default();
     let mut state: State = State::new();
@@ -363,6 +366,8 @@ fn storm(seed: u64, index: u64, rounds: u32) -> StormReport {
         let _ = h.join();
     }
     PAUSE_ON.store(false, Ordering::Relaxed);
+    // from here on the driver is sequential (oracle computation): nothing can block on anything
+    CONCURRENT_PHASE.store(false, Ordering::SeqCst);
     if results.len() as u64 != jobs_sent {
         problems.push(("analysis-lost".into(), json!({"jobs": jobs_sent, "results": results.len()})));
     }
@@ -468,7 +473,7 @@ fn run_storm(cfg: &Cfg, index: u64, stats: &mut Stats) {
             | Err(std::sync::mpsc::RecvTimeoutError::Disconnected) => break None,
             | Err(std::sync::mpsc::RecvTimeoutError::Timeout) => {
                 let now = CLOCK.load(Ordering::SeqCst);
-                if now != last {
+                if now != last || !CONCURRENT_PHASE.load(Ordering::SeqCst) {
                     last = now;
                     last_change = Instant::now();
                 } else if last_change.elapsed() > Duration::from_secs(60) {
